@@ -332,29 +332,35 @@ def seek_case(rng, mode, allow_past_end=False):
     return c
 
 
+def seek_sweep_cases(rng, mode, N):
+    """sweep of the seek moment: after every number of whole blocks t produced by one request (started on or inside a block),
+    seek a little back — into the block just produced or the one before — or ahead, and read on"""
+    out = []
+    pool = [x for x in matrix_for(mode) if x[0] <= 16]
+    cfgs = rng.sample(pool, min(3, len(pool)))
+    for t in range(1, N + 1):
+        bs, w = cfgs[t % len(cfgs)]
+        key = rb(rng, 16)
+        iv, cls = stream_iv(rng, mode, bs, key)
+        c = Case("stream", mode, bs, w, key, iv, cls_iv=cls, cls_sweep=1)
+        k0 = rng.randrange(1, bs) if rng.random() < 0.6 else 0
+        L = (bs - k0) % bs + t * bs + (rng.randrange(1, bs) if rng.random() < 0.35 else 0)
+        q = k0 + L
+        target = max(0, q - rng.choice([1, bs - 1, bs, bs + 1, rng.randrange(1, 2 * bs + 1)])) if rng.random() < 0.8 else q + rng.randrange(0, 2 * bs)
+        if k0:
+            c.ops.append(f"apply {hx(rb(rng, k0))}")
+        c.ops += [f"apply {hx(rb(rng, L))}", f"seek u64 {target}", f"apply {hx(rb(rng, bs + 1))}", "pos u64"]
+        out.append(c)
+    return out
+
+
 def run_C10(ctx):
     cases = []
     rng = ctx.rng
     for mode in list(CTR_FLAVORS) + ["belt"]:
         for _ in range(ctx.n(90, 1500)):
             cases.append(seek_case(ctx.rng, mode))
-        # sweep of the seek moment: after every number of whole blocks t produced by one request (started on or inside a block),
-        # seek a little back — into the block just produced or the one before — or ahead, and read on
-        pool = [x for x in matrix_for(mode) if x[0] <= 16]
-        cfgs = rng.sample(pool, min(3, len(pool)))
-        for t in range(1, (SWEEP_N_THOROUGH if ctx.thorough else SWEEP_N) // 2 + 1):
-            bs, w = cfgs[t % len(cfgs)]
-            key = rb(rng, 16)
-            iv, cls = stream_iv(rng, mode, bs, key)
-            c = Case("stream", mode, bs, w, key, iv, cls_iv=cls, cls_sweep=1)
-            k0 = rng.randrange(1, bs) if rng.random() < 0.6 else 0
-            L = (bs - k0) % bs + t * bs + (rng.randrange(1, bs) if rng.random() < 0.35 else 0)
-            q = k0 + L
-            target = max(0, q - rng.choice([1, bs - 1, bs, bs + 1, rng.randrange(1, 2 * bs + 1)])) if rng.random() < 0.8 else q + rng.randrange(0, 2 * bs)
-            if k0:
-                c.ops.append(f"apply {hx(rb(rng, k0))}")
-            c.ops += [f"apply {hx(rb(rng, L))}", f"seek u64 {target}", f"apply {hx(rb(rng, bs + 1))}", "pos u64"]
-            cases.append(c)
+        cases += seek_sweep_cases(rng, mode, (SWEEP_N_THOROUGH if ctx.thorough else SWEEP_N) // 2)
     res = ctx.run(cases)
     # reported positions and outcome kinds: absolute (the byte position is tracked from the requested seeks);
     # bytes produced after a seek: compared with the implementation's OWN keystream at that offset, obtained
@@ -492,6 +498,15 @@ def run_C11(ctx):
     ctx.check_absolute(cases, res, sigfn=sig_C11, project=kinds_only)
     no_reuse(ctx, [c for c in cases if c.family == "stream"], res)
     far_reuse(ctx)
+    # the same predicate over ordinary seek histories (backward seeks into blocks already produced, after requests of every size)
+    hist = []
+    for mode in list(CTR_FLAVORS) + ["belt"]:
+        for _ in range(ctx.n(20, 300)):
+            hist.append(seek_case(ctx.rng, mode))
+        hist += seek_sweep_cases(ctx.rng, mode, SWEEP_N // 4)
+    r2 = ctx.run(hist, layers=())
+    ctx.no_panic(hist, r2)
+    no_reuse(ctx, hist, r2, consistent=True)
 
 
 def far_reuse(ctx):
@@ -607,7 +622,7 @@ def far_reuse(ctx):
                           if bad[0] != bad[1] else f"{c.mode} bs={c.bs} w={c.w}: block position {bad[0]} gives two different keystream blocks", [c], {"H": hh})
 
 
-def no_reuse(ctx, cases, res):
+def no_reuse(ctx, cases, res, consistent=False):
     """the property itself: within one instance's history, keystream handed out at two different block
     positions must differ (keystream = output xor input, positions tracked from the requested seeks)."""
     for c in cases:
@@ -629,6 +644,10 @@ def no_reuse(ctx, cases, res):
                 ks = xor(data, out)
                 for b in range((q + bs - 1) // bs, (q + len(data)) // bs):
                     blk = ks[b * bs - q:(b + 1) * bs - q]
+                    if consistent and b in seen and seen[b] != blk and bs >= 1:
+                        ctx.violation("predicate", f"{c.mode} bs={bs}: block position {b} is served with two different keystream blocks within one history (one of them belongs to another position)",
+                                      [c], {"H": h}, sig=sig_C11(c, i, None, None))
+                        break
                     for b2, k2 in seen.items():
                         if b2 != b and k2 == blk and bs >= 4:
                             ctx.violation("predicate", f"{c.mode} bs={bs}: keystream block handed out at block position {b2} is used again at block position {b} without an error",
